@@ -746,9 +746,18 @@ func c18R3(p *engine.Prog, r *engine.Report, cts []*codecType) {
 				// selects the digest: bound by construction iff Sender branches on it
 				ok := false
 				if s, err := p.Func("blockchain/types", "Sender"); err == nil {
-					for _, i := range engine.Ifs(s) {
-						if _, isU := loadOfField(i.Cond, "Transaction", "UseRlp"); isU {
-							ok = true
+					// in Sender itself or in a same-package helper it calls (directly) with the transaction
+					fns := []*ssa.Function{s}
+					for _, c := range engine.Calls(s) {
+						if cal := c.Common().StaticCallee(); cal != nil && cal.Pkg == s.Pkg && cal.Blocks != nil && len(c.Common().Args) > 0 && engine.Origin(c.Common().Args[0]) == ssa.Value(s.Params[0]) {
+							fns = append(fns, cal)
+						}
+					}
+					for _, f2 := range fns {
+						for _, i := range engine.Ifs(f2) {
+							if _, isU := loadOfField(i.Cond, "Transaction", "UseRlp"); isU {
+								ok = true
+							}
 						}
 					}
 				}
